@@ -30,6 +30,7 @@ ASSUMPTIONS = [
     "optimality statements (A-norm / residual minimisation) are not proved; monotonicity and finite termination are tested on the implementation",
     "lgmres, bicgstabl, idrs: implementation-side oracles only (monotone residual / finite termination), no reference recurrences",
 ]
+REF_SOLVERS = ["cg", "bicgstab", "richardson", "gmres", "fgmres"]   # have a reference recurrence in KrylovRef.v
 SLACK = F(1, 2 ** 40)
 TOL10 = F(1, 1024)
 
@@ -39,7 +40,7 @@ def cases(tier, seed):
     out = []   # (line, kind, meta)
     def add(line, kind, **meta): out.append((line, kind, meta))
     # 1. reference comparison; 2. richardson k-fold; 3. monotone groups
-    for solver in kc.MODELLED + ["lgmres"]:
+    for solver in REF_SOLVERS + ["lgmres"]:
         heavy = solver not in kc.SQRT_FREE
         nsys = (10 if heavy else 24) if tier == "quick" else (24 if heavy else 60)
         for si in range(nsys):
@@ -88,7 +89,7 @@ def cases(tier, seed):
 
 def run(ctx, cases_override=None):
     if cases_override:
-        cs = [(l, "ref" if l.split(" ", 3)[2] in kc.MODELLED else "mono", dict(solver=l.split(" ", 3)[2], group="x", k=0)) for l in cases_override]
+        cs = [(l, "ref" if l.split(" ", 3)[2] in REF_SOLVERS else "mono", dict(solver=l.split(" ", 3)[2], group="x", k=0)) for l in cases_override]
     else:
         cs = cases(ctx["tier"], ctx["seed"])
     lines = [c[0] for c in cs]
